@@ -411,6 +411,18 @@ class PurityMachine(RuleBasedStateMachine):
             raise Failure(problem)
 
     @precondition(lambda self: len(self.objects) > 0)
+    @rule(o=st.integers(0, 7), k=st.integers(0, 5), perm=st.integers(0, 10 ** 9))
+    def read_all(self, o, k, perm):
+        """Read EVERY output of one partition in a drawn permutation: every ordered pair of
+        outputs (a read before b) is exercised with probability 1/2 per call."""
+        step = ["read_all", o, k, perm]
+        self.history.append(step)
+        self.reads += 60
+        problem = apply_step(self.sc, self.shared, self.objects, step, self.ref)
+        if problem:
+            raise Failure(problem)
+
+    @precondition(lambda self: len(self.objects) > 0)
     @rule(o=st.integers(0, 7), p=st.integers(0, 40))
     def read_container(self, o, p):
         step = ["read_container", o, p]
@@ -515,15 +527,21 @@ def apply_step(sc, shared, objects, step, ref=None):
     k = step[2] % len(parts)
     part = parts[k]
     outs = outputs_for(part)
-    if op == "read_family":
-        fams = families(outs)
-        fam = fams[step[3] % len(fams)]
+    if op in ("read_family", "read_all"):
+        if op == "read_all":
+            fam = outs
+            code = step[3]
+        else:
+            fams = families(outs)
+            fam = fams[step[3] % len(fams)]
+            code = step[4]
         order = list(range(len(fam)))
-        # deterministic permutation from the drawn integer (Lehmer code)
-        code, seq = step[4], []
+        # deterministic permutation from the drawn integer (LCG-driven Fisher-Yates)
+        seq = []
+        state = code + 1
         while order:
-            code, r = divmod(code, len(order))
-            seq.append(order.pop(r))
+            state = (state * 6364136223846793005 + 1442695040888963407) % (2 ** 64)
+            seq.append(order.pop((state >> 33) % len(order)))
         for i in seq:
             out = fam[i]
             want = ref.value(jj, k, out, tj)
@@ -712,7 +730,7 @@ def judge_forms(sc, rec):
 
 
 SUBCHECKS = [
-    SubCheck("histories", None, replay_history, quick=960, thorough=12000, kind="custom",
+    SubCheck("histories", None, replay_history, quick=640, thorough=12000, kind="custom",
              custom_fn=run_machine),
     SubCheck("forms", forms_case_st(), judge_forms, quick=480, thorough=6000),
     SubCheck("threads", forms_case_st(), judge_threads, quick=64, thorough=1600),
